@@ -79,6 +79,9 @@ def run_single(ctx, rng, N):
         ctx.case(("c05", name, n, p, n_new, mode, i), nontrivial=n_new >= 2, tag="%s/%s" % (name, mode),
                  sample=dict(cls=name, train=[n, p], new_samples=n_new, coords=mode))
         check_transform(ctx, "C05:%s" % name, "%s/%s" % (name, mode), lambda d: m.transform(d), new, "time", replay)
+        if name in ("EOF", "ComplexEOF"):
+            # the normalised variant divides by the FITTED norms: still a per-sample map
+            check_transform(ctx, "C05:%s:normalized" % name, "%s/%s/normalized" % (name, mode), lambda d: m.transform(d, normalized=True), new, "time", replay)
         # subset of the training samples
         idx = sorted(set(rng.integers(0, n, size=int(rng.integers(1, n))).tolist()))
         sub = X.isel(time=idx)
@@ -98,6 +101,8 @@ def run_single(ctx, rng, N):
                     continue
                 ctx.case(("c05rot", name, n, p, n_new, mode, power, i), nontrivial=n_new >= 2, tag="%sRotator/%s" % (name, mode))
                 check_transform(ctx, "C05:%sRotator" % name, "%sRotator(power=%d)/%s" % (name, power, mode), lambda d: rot.transform(d), new, "time", replay)
+                check_transform(ctx, "C05:%sRotator:normalized" % name, "%sRotator(power=%d)/%s/normalized" % (name, power, mode),
+                                lambda d: rot.transform(d, normalized=True), new, "time", replay)
 
 
 def run_structured(ctx, rng, N):
@@ -194,6 +199,7 @@ def run_cross(ctx, rng, N):
                  sample=dict(cls=name, train=[n, p1, p2], new_samples=n_new, coords=mode, kw=kw))
         check_transform(ctx, "C05:%s:X" % name, "%s field X/%s" % (name, mode), lambda d: m.transform(X=d), nx, "time", replay)
         check_transform(ctx, "C05:%s:Y" % name, "%s field Y/%s" % (name, mode), lambda d: m.transform(Y=d), ny, "time", replay)
+        check_transform(ctx, "C05:%s:Y:normalized" % name, "%s field Y/%s/normalized" % (name, mode), lambda d: m.transform(Y=d, normalized=True), ny, "time", replay)
         for power in (1, 2):
             try:
                 rot = Z.rotator_for(name)(n_modes=2, power=power, max_iter=3000, rtol=1e-10)
